@@ -377,14 +377,72 @@ pub fn run(tier: Tier) -> i32 {
 
     full.par_iter().for_each(|c| check_case(&cx, "", Core::Full, true, c));
     // reduced core: the full-core tuples (lds/sts now follow the one-word rules) + its own windows
-    full.par_iter().for_each(|c| check_case(&cx, "ATtiny20", Core::Reduced, false, c));
-    reduced.par_iter().for_each(|c| check_case(&cx, "ATtiny20", Core::Reduced, true, c));
+    // (every row of the device table that has the reduced core, not only the one known today)
+    let reduced_devs: Vec<String> = sut::devices().iter().filter(|d| d.flags.contains("Avr8l")).map(|d| d.name.clone()).collect();
+    rep.guard(reduced_devs.iter().any(|d| d == "ATtiny20"), "ATtiny20 is expected among the reduced-core rows");
+    for dev in reduced_devs.iter() {
+        full.par_iter().for_each(|c| check_case(&cx, dev, Core::Reduced, false, c));
+        reduced.par_iter().for_each(|c| check_case(&cx, dev, Core::Reduced, true, c));
+    }
     // a Tiny1x device: nothing unencodable may slip through there either
     full.par_iter().for_each(|c| check_case(&cx, "ATtiny11", Core::Full, false, c));
     // relative jumps and branches on devices whose flash a 12-bit displacement spans
     for dev in ["ATmega8", "ATtiny13", "ATtiny45"] {
         full.par_iter().filter(|c| icase::is_relative(c.ic.mnem)).for_each(|c| check_case(&cx, dev, Core::Full, false, c));
     }
+    // the operand reaches the instruction through symbols: a constant, a variable, and a constant
+    // defined over a variable that had a legal value at an earlier use of the same line
+    let n_via_symbols = AtomicU64::new(0);
+    full.par_iter().filter(|c| c.cat == "numeric" && !c.uses_alias).for_each(|c| {
+        let ops = &c.ic.ops;
+        let p = c.pos;
+        let k = match ops.get(p) {
+            Some(Opnd::Imm(k)) => *k,
+            _ => return,
+        };
+        if icase::is_relative(c.ic.mnem) || isa::encode(Core::Full, c.ic.mnem, ops).is_some() || sibling(Core::Full, &c.ic).is_some() {
+            return;
+        }
+        // thinned like the followed-by-a-segment programs
+        if (k.unsigned_abs() % 5) != 0 && k.unsigned_abs() > 300 {
+            return;
+        }
+        // a legal value for the same field: search near the ends of small ranges
+        let legal = [0i64, 1, 16, 63, 64, 32, 7].iter().copied().find(|v| {
+            let mut o2 = ops.clone();
+            o2[p] = Opnd::Imm(*v);
+            isa::encode(Core::Full, c.ic.mnem, &o2).is_some()
+        });
+        let legal = match legal {
+            Some(v) => v,
+            None => return,
+        };
+        let with = |name: &str| -> String {
+            let mut parts: Vec<String> = ops.iter().map(|o| o.text()).collect();
+            parts[p] = name.to_string();
+            format!("{} {}", c.ic.mnem, parts.join(", "))
+        };
+        let kt = if k == i64::MIN { "-9223372036854775807-1".to_string() } else { format!("{}", k) };
+        let programs = [
+            ("equ", format!(".equ v_q = {}\n{}\n", kt, with("v_q"))),
+            ("set", format!(".set v_q = {}\n{}\n", kt, with("v_q"))),
+            ("late-equ", format!("{}\n.equ v_q = {}\n", with("v_q"), kt)),
+            ("equ-over-variable-that-changed", format!(".set n_q = {}\n.equ v_q = n_q + 0\n{}\n.set n_q = {}\n{}\n", legal, with("v_q"), kt, with("v_q"))),
+            ("variable-that-changed", format!(".set n_q = {}\n{}\n.set n_q = {}\n{}\n", legal, with("n_q"), kt, with("n_q"))),
+        ];
+        for (how, src) in programs.iter() {
+            let o = sut::build_str(src);
+            cx.evals.fetch_add(1, Ordering::Relaxed);
+            n_via_symbols.fetch_add(1, Ordering::Relaxed);
+            if let Outcome::Ok(b) = &o {
+                cx.rep.violation(
+                    &format!("C04/accepted-through-a-symbol/mnem={}/how={}", c.ic.mnem, how),
+                    || format!("`{}` cannot be encoded, but with the value {} reaching it through a symbol ({}) the program assembles to {}", c.text, k, how, sut::hex_trunc(&b.code, 16)),
+                    || json!({"kind": "build_str", "source": src, "expected": {"result": "err (any text)"}, "observed": o.to_json()}),
+                );
+            }
+        }
+    });
     // the rejected line is not the last thing in the program: other segments follow it
     let n_followed = AtomicU64::new(0);
     full.par_iter().filter(|c| !c.uses_alias).for_each(|c| {
@@ -442,6 +500,7 @@ pub fn run(tier: Tier) -> i32 {
         "categories": cats,
         "mnemonics": mnems.len(),
         "outcomes": {"ok": cx.ok_seen.load(Ordering::Relaxed), "err": cx.err_seen.load(Ordering::Relaxed), "panic_left_to_C16": cx.panic_seen.load(Ordering::Relaxed)},
+        "must_reject_values_through_symbols_programs": n_via_symbols.load(Ordering::Relaxed),
         "must_reject_lines_followed_by_another_segment": n_followed.load(Ordering::Relaxed),
         "lenient_sibling_form_accepted": cx.lenient_used.load(Ordering::Relaxed),
         "caps_hit": [],
